@@ -27,13 +27,16 @@ IDENTS = ["data", "errors", "extra", "value", "getter", "sentinel", "constructor
           "é", "ключ", "μ", "ExtraFieldsLoadError", "NoRequiredFieldsLoadError", "saturator", "extractor", "extra_2", "data_2", "loader_data", "r_data",
           "f_data", "dfl_data", "opt_fields_2", "g_loader_a", "closure", "builtins", "__class__name" if False else "class__name"]
 
-HOST_SETUP = '''
+HOST_CANARY = '''
 import builtins
 CANARY = []
 def __CANARY__(*a, **k):
     CANARY.append(a)
     return "canary"
 builtins.__CANARY__ = __CANARY__
+'''
+
+HOST_SETUP = HOST_CANARY + '''
 
 def member_for_key(k1, k2):
     return {"model": "MD", "layout": {"a": (k1,), "b_": ("b",), "c_d": ("p", k2)}, "extra_in": "forbid", "extra_out": "skip", "omit": []}
@@ -284,6 +287,117 @@ def named_case(ni, v):
     return True
 '''
 
+KWIDS_SETUP = '''
+import dataclasses, keyword
+from typing import TypedDict
+from adaptix import P
+from adaptix.conversion import get_converter, impl_converter, link, link_function
+KW_ERRORS = []
+# field ids that are legal but cannot be written as they are in source code: keywords, and ids that are not in NFKC form
+# (the compiler reads identifiers in NFKC form: the ligature U+FB01 and 'fi' would be one variable)
+LIG, MICRO, KELVIN = chr(0xFB01), chr(0xB5), chr(0x212A)
+ID_GROUPS = [("class", "from", "a"), ("def", "x", "return"), (LIG, "fi", "a"), ("fi", LIG, "f"), (MICRO, chr(0x3BC), "m"), (KELVIN, "K", "k"),
+             ("lambda", LIG, "None"), ("a" + chr(0xAA), "aa", "a"), (chr(0x2160), "I", "i"), ("True", "False", "import")]
+KWG = []       # (names, TD, Twin dataclass with plain names, loaders, dumpers, conv TD->TD2, conv DC->TD, conv TD->DC)
+@dataclasses.dataclass
+class Plain3:
+    p0: Stub
+    p1: Stub
+    p2: Stub
+for _gi, _names in enumerate(ID_GROUPS):
+    try:
+        _TD = TypedDict("KwTD%d" % _gi, {n: Stub for n in _names})
+        _TD2 = TypedDict("KwTDb%d" % _gi, {n: Stub for n in _names})
+        _ld, _dp = {}, {}
+        for _s in (True, False):
+            for _dt in DT_MODES:
+                _r = Retort(recipe=STUB_RECIPE, strict_coercion=_s, debug_trail=_dt)
+                _ld[(_s, _dt)] = _r.get_loader(_TD)
+                if _s: _dp[_dt] = _r.get_dumper(_TD)
+        _c1 = get_converter(_TD, _TD2)
+        _c2 = get_converter(Plain3, _TD, recipe=[link(P[Plain3]["p%d" % i], P[_TD][n]) for i, n in enumerate(_names)])
+        _c3 = get_converter(_TD, Plain3, recipe=[link(P[_TD][n], P[Plain3]["p%d" % i]) for i, n in enumerate(_names)])
+        KWG.append((_names, _TD, _ld, _dp, _c1, _c2, _c3))
+    except Exception as _e:
+        KW_ERRORS.append(("ids", _names, type(_e).__name__, repr(_e)[:200]))
+NKW = max(1, len(KWG))
+try:
+    from pydantic import create_model
+    PYD = []
+    for _n in ("class", "from", "import"):
+        _M = create_model("PydKw_" + _n, **{_n: (int, ...), "b": (int, 7)})
+        _r = Retort()
+        PYD.append((_n, _M, _r.get_loader(_M), _r.get_dumper(_M), get_converter(_M, TypedDict("PydTD_" + _n, {_n: int, "b": int}))))
+except Exception as _e:
+    KW_ERRORS.append(("pydantic", type(_e).__name__, repr(_e)[:200]))
+    PYD = []
+NPYD = max(1, len(PYD))
+
+def kw_ids(gi, v0, v1, v2, present2):
+    names, TD, loaders, dumpers, c1, c2, c3 = KWG[pick(gi, NKW)]
+    vals = (v0, v1, v2)
+    data = {n: v for n, v in zip(names, vals)}
+    if not present2: del data[names[2]]
+    exp_fail = (not present2) or v0 < 0 or v1 < 0 or v2 < 0
+    for key, ld in loaders.items():
+        o = outcome(ld, dict(data))
+        if o[0] == "other_exc": return False
+        if exp_fail != (o[0] == "load_error"): return False
+        if o[0] == "ok":
+            obj = o[2]
+            if obj != {n: Stub(v) for n, v in zip(names, vals)}: return False
+            for dt, dp in dumpers.items():
+                if dp(obj) != data: return False
+            if c1(obj) != obj: return False
+            if c2(Plain3(Stub(v0), Stub(v1), Stub(v2))) != obj: return False
+            if c3(obj) != Plain3(Stub(v0), Stub(v1), Stub(v2)): return False
+    return True
+
+def kw_pyd(ni, a, b, has_b):
+    n, M, ld, dp, conv = PYD[pick(ni, NPYD)]
+    a, b = realize(a), realize(b)
+    data = {n: a}
+    if has_b: data["b"] = b
+    obj = ld(data)
+    eb = b if has_b else 7
+    if getattr(obj, n) != a or obj.b != eb: return False
+    return dp(obj) == {n: a, "b": eb} and conv(obj) == {n: a, "b": eb}
+
+# names of converters are data: text, keywords, names of the wrapper's own constants, parameter names
+CONV_NAMES = ["_closure_signature", "_update_wrapper", "_stub_function", "weird name", "class", "def", "a'b", 'a"b', "a" + chr(92), "f(src): return __CANARY__()" + chr(10) + "    def g",
+              "", "1", "src", "coercer", "x", "convert", "{__CANARY__()}", "a.b", "a[0]", LIG, "None", "__CANARY__", "print", "a b", chr(10), "#", "a#b", "lambda", "ctx"]
+@dataclasses.dataclass
+class CnS:
+    a: int
+@dataclasses.dataclass
+class CnD:
+    a: int
+    x: int
+CONVS = []
+for _nm in CONV_NAMES:
+    try:
+        _g = get_converter(CnS, CnS, name=_nm)
+        def _stub(src: CnS, x: int) -> CnD: ...
+        _stub.__name__ = _nm
+        _i = impl_converter(_stub)
+        def _lf(m): return m.a + 3
+        _lf.__name__ = _nm
+        _l = get_converter(CnS, CnD, recipe=[link_function(_lf, P[CnD].x)])
+        _Dn = dataclasses.dataclass(type(_nm, (), {"__annotations__": {"a": int}}))
+        _d = get_converter(CnS, _Dn)
+        CONVS.append((_nm, _g, _i, _l, _d, _Dn))
+    except Exception as _e:
+        KW_ERRORS.append(("conv_name", _nm, type(_e).__name__, repr(_e)[:200]))
+NCN = max(1, len(CONVS))
+def conv_names(ni, a, x):
+    nm, g, i, l, d, Dn = CONVS[pick(ni, NCN)]
+    if g(CnS(a)) != CnS(a) or g.__name__ != nm: return False
+    if i(CnS(a), x) != CnD(a, x) or i.__name__ != nm: return False
+    if l(CnS(a)) != CnD(a, a + 3): return False
+    out = d(CnS(a))
+    return type(out) is Dn and out.a == a and not CANARY
+'''
+
 KNAME = '''
 def smt_sanitizer_alphabet():
     """K-name/1: every character the sanitizer keeps (first-character rule, translate map and _BAD_CHARS read from the live class) is an
@@ -424,6 +538,18 @@ def build(tier, seed):
                  "tuple with a Decimal, a function, a class) for a positional and a keyword-only parameter; symbolic ints")
     mn.ob("names_same_name_nested", "x: int, y: int", "return same_name_nested(x, y)", timeout=tmo,
           family="different classes sharing one __name__ at two nesting levels (converter, loader, dumper)", bounds="symbolic ints")
+    mw = Module("c19_kwids").pre(MODEL_SETUP).pre(HOST_CANARY).pre(KWIDS_SETUP)
+    fam_kw = "field ids that are keywords or not in NFKC form (TypedDict keys, pydantic fields); converter / function / class names as data"
+    mw.ob("kwids_build", "x: int", "return not KW_ERRORS and not CANARY", timeout=60, family=fam_kw,
+          bounds="10 groups of 3 TypedDict keys (keywords; pairs that differ only by NFKC form: U+FB01/fi, U+00B5/U+03BC, U+212A/K, U+00AA/a, U+2160/I): 6 loaders, 3 dumpers, "
+                 "3 converters each; 3 pydantic models with a keyword field; 29 converter names x (get_converter name=, impl_converter stub, linked function, destination class)")
+    mw.ob("kwids_case", "gi: int, v0: int, v1: int, v2: int, present2: bool", "return kw_ids(gi, v0, v1, v2, present2)",
+          pre=["0 <= gi < NKW", "v0 >= -1 and v1 >= -1 and v2 >= -1"], timeout=tmo * 2, family=fam_kw,
+          bounds="per group: stub codes (payload / LoadError), third key present or absent; 6 loaders, 3 dumpers, TypedDict -> TypedDict, dataclass -> TypedDict, TypedDict -> dataclass")
+    mw.ob("kwids_pydantic", "ni: int, a: int, b: int, has_b: bool", "return kw_pyd(ni, a, b, has_b)", pre=["0 <= ni < NPYD", "-2 <= a <= 2 and -2 <= b <= 2"], timeout=tmo, family=fam_kw,
+          bounds="keyword field + defaulted field; ints realised before pydantic-core (solver-chosen samples in [-2, 2]); loader, dumper, converter into a TypedDict")
+    mw.ob("conv_names", "ni: int, a: int, x: int", "return conv_names(ni, a, x)", pre=["0 <= ni < NCN"], timeout=tmo, family=fam_kw,
+          bounds="29 names: the converter works, keeps the requested __name__, canary never evaluated; symbolic ints")
     mk = Module("c19_kname").pre("from adaptix import Retort\n")
     mk.smt("sanitizer_alphabet", KNAME, timeout=300, family="K-name/1 (z3): sanitizer output alphabet",
            bounds="all code points <= 0x10FFFF; tables regenerated from the live BuiltinNameSanitizer and the running interpreter")
@@ -436,8 +562,8 @@ def build(tier, seed):
         if m08.key == "c08_e2e":
             m08.obs = [o for o in m08.obs if o.name in ("takes_self_param_names", "param_name_vs_field_id")]
             pn.append(m08)
-    return Plan("C19", mods + [mi, mn, mk] + pn,
+    return Plan("C19", mods + [mi, mn, mw, mk] + pn,
                 assumptions=["the string quantifier cannot cross compile(): hostile keys / ids / names are enumerated as extra programs, data is symbolic",
                              "a canary function in builtins records any evaluation of injected text"],
                 bounds={"keys": f"{len(keys)} of {len(hostile_keys())}", "identifiers": str(len(IDENTS))},
-                outside=["arbitrary keys outside the list", "NFKC-unnormalised identifiers", "'no interpolation site forgets !r' as a universal statement"])
+                outside=["arbitrary keys outside the list", "NFKC-unnormalised identifiers other than the listed pairs", "'no interpolation site forgets !r' as a universal statement"])
